@@ -66,6 +66,9 @@ def minimise(prop_mod, case, sched, clause, budget_s=60.0):
         for key in ("opts", "outs"):
             i = 0
             while i < len(case[key]) and time.time() < t_end:
+                if case[key][i] == ["--interleaved"] and case["input"]["layout"] == "interleaved":
+                    i += 1  # the option belongs to the input layout: without it the case means something else
+                    continue
                 cand = copy.deepcopy(case)
                 del cand[key][i]
                 if attempt(cand):
@@ -74,7 +77,8 @@ def minimise(prop_mod, case, sched, clause, budget_s=60.0):
                     i += 1
         # knobs
         k = case["knobs"]
-        for name, val in (("workers", 2), ("capacity", None), ("feeder", False), ("policy", {"kind": "lowest"})):
+        for name, val in (("workers", 2), ("capacity", None), ("feeder", False), ("policy", {"kind": "lowest"}),
+                          ("start_method", "spawn"), ("tty", False), ("piped_exts", []), ("emfile_at", None), ("relpaths", False)):
             if k.get(name) != val:
                 cand = copy.deepcopy(case)
                 cand["knobs"][name] = val
